@@ -554,7 +554,8 @@ example :
      | .error .zeroDiv => true
      | _ => false) = true := by decide +kernel
 
-example : NetOK exSqrt exMods where
+/-- the example netlist meets the netlist side conditions. -/
+theorem ex_netOK : NetOK exSqrt exMods where
   names := by decide
   sqrt_ok := by
     intro m hm hr
@@ -616,6 +617,44 @@ example : Dissection exRefinable
   · apply Dissection.keep _ _ _ _ ⟨rfl, rfl, rfl, rfl⟩
     apply Dissection.keep _ _ _ _ ⟨rfl, rfl, rfl, rfl⟩
     exact Dissection.nil
+/-- the same die as a document for the C01 model: 4×4, no regions; the fixed rectangle comes from the netlist. -/
+def exDoc : Die.YV ℚ := .map [("width", .num 4), ("height", .num 4)]
+def exInp : Die.DieIn ℚ := { W := 4, H := 4, regions := [] }
+
+/-- the hypotheses of the `_on_die` theorems are met: the document parses, is a `ValidDie` with the netlist's fixed
+    rectangles, accepted pick sequences exist (`C01.cover_exists`) — so for each of them the die is returned and the
+    area allocated to `S` and `q` is given by the input-only formula. -/
+example : ∃ picks out, Die.dieModel exSqrt none exDoc (netFixedRects exMods) (some picks) =
+      .ok (out, (Die.mkEps exSqrt none exInp.W exInp.H).1, (Die.mkEps exSqrt none exInp.W exInp.H).2) ∧
+    ∀ (εA : ℚ) (iz : Bool) (A : Allocation ℚ),
+      createInitialAllocation exSqrt εA iz exMods (refinableOf out) out.fixed = .ok A →
+      (A.cells.filter fun c => !c.rect.fixed).map (·.rect) = refinableOf out ∧
+      ∀ m ∈ exMods, m.fixed = false →
+        allocatedSum A.cells m.name =
+          ((shapeOf exSqrt m).map fun r => (Die.dieRect exInp.W exInp.H).areaOverlap r -
+            ((Die.blockOf exInp ++ netFixedRects exMods).map fun b => b.areaOverlap r).sum).sum := by
+  obtain ⟨picks, hacc⟩ := C01.cover_exists
+    ((Die.gridOf (Die.mkEps exSqrt none exInp.W exInp.H).1 exInp (netFixedRects exMods)).2.length - 1)
+    ((Die.gridOf (Die.mkEps exSqrt none exInp.W exInp.H).1 exInp (netFixedRects exMods)).1.length - 1)
+    (Die.occ (Die.gridOf (Die.mkEps exSqrt none exInp.W exInp.H).1 exInp (netFixedRects exMods)).1
+      (Die.gridOf (Die.mkEps exSqrt none exInp.W exInp.H).1 exInp (netFixedRects exMods)).2
+      (Die.occRects exInp (netFixedRects exMods)))
+  obtain ⟨out, h1, h2⟩ := allocated_area_on_die exSqrt none exDoc exInp exMods (by with_unfolding_all rfl)
+    (by decide +kernel) (by decide +kernel)
+    (by
+      constructor
+      · decide +kernel
+      · decide +kernel
+      · decide +kernel
+      · unfold Die.Sep; decide +kernel
+      · unfold Die.Sep; decide +kernel)
+    picks hacc ex_netOK
+    (by
+      intro m hm hf
+      simp only [exMods, List.mem_cons, List.not_mem_nil, or_false] at hm
+      rcases hm with rfl | rfl | rfl <;> simp at hf ⊢)
+  exact ⟨picks, out, h1, h2⟩
+
 end example_
 
 end FV.C03
